@@ -213,6 +213,32 @@ func setupNamed() {
 	cloneOf["T"] = "Tb"
 	shared["s1"] = fn(1, "S", nil, nil, nil, false)
 	shared["s2"] = fn(1, "S", nil, []types.Type{tint}, nil, false)
+	// second *types.Named NODE for every type name (types.NewNamed called again with the SAME *TypeName object):
+	// the only way to obtain two named types that are identical without being pointer-equal
+	for k, n := range named {
+		namedTwin[k] = types.NewNamed(n.Obj(), n.Underlying(), nil)
+	}
+}
+
+// namedTwin[k] shares its *types.TypeName with named[k] (identical type, different node); build uses it when gen == 1
+var (
+	namedTwin = map[string]*types.Named{}
+	gen       int
+)
+
+func namedOf(key string) *types.Named {
+	if gen == 1 {
+		return namedTwin[key]
+	}
+	return named[key]
+}
+
+// buildGen builds s with every named type (atoms, method receivers, embedded interfaces) taken from generation g
+func buildGen(s *spec, g int) types.Type {
+	old := gen
+	gen = g
+	defer func() { gen = old }()
+	return build(s)
 }
 
 // withClones adds, for every spec that embeds named interfaces, the variants with the embedded names replaced by
@@ -291,7 +317,7 @@ func build(s *spec) types.Type {
 	case "alias":
 		return types.Universe.Lookup(s.Name).Type()
 	case "named":
-		return named[s.Name]
+		return namedOf(s.Name)
 	case "ptr":
 		return types.NewPointer(build(s.A))
 	case "slice":
@@ -327,13 +353,13 @@ func build(s *spec) types.Type {
 			}
 			var recv *types.Var
 			if m.Recv != "" {
-				recv = types.NewVar(token.NoPos, nil, "", named[m.Recv])
+				recv = types.NewVar(token.NoPos, nil, "", namedOf(m.Recv))
 			}
 			ms = append(ms, fn(m.Pkg, m.Name, recv, buildAll(m.Ps), buildAll(m.Rs), m.Va))
 		}
 		var es []types.Type
 		for _, e := range s.Embs {
-			es = append(es, named[e])
+			es = append(es, namedOf(e))
 		}
 		return types.NewInterfaceType(ms, es).Complete()
 	}
@@ -856,7 +882,7 @@ func main() {
 		"and for EVERY named type a clone = a different type name with a separately built structurally identical underlying type (N1b,N2b,E0b,E1b,E2b,E3b,Tb; E2c{E1b;N(int)}; E4{M();N(int)} = E2 flattened)), every rule/literal that embeds named interfaces also in the variants with the clones embedded (all/first/last), "+
 		"25 closed interface/struct/func literals, and 61 constructor rules (pointer, slice, arrays of 5 lengths incl. -1 and 2^31-1, chan x3, map, tuples incl. nil-typed vars, signatures with/without receiver and variadic, "+
 		"structs with exported/unexported names in packages p/q/nil, tags, embedded flag, field order, interfaces with explicit methods, embedded named interfaces (also overlapping E1;E2), flattened variants, named receivers, shared *Func objects) applied exhaustively "+
-		"to every atom (depth 1 exhaustive); depth 2 = PRNG sample of whole sibling groups (all 61 rules on one depth-1 term) out of the 60k-term exhaustive depth-2 set: quick >=1500 terms, thorough >=8000 plus 1500 depth-3 terms; n-ary partners drawn by PRNG; every term is built twice (pointer-disjoint twins). "+
+		"to every atom (depth 1 exhaustive); depth 2 = PRNG sample of whole sibling groups (all 61 rules on one depth-1 term) out of the 60k-term exhaustive depth-2 set: quick >=1500 terms, thorough >=8000 plus 1500 depth-3 terms; n-ary partners drawn by PRNG; every term is built twice (pointer-disjoint twins; the second instance also takes every named type, method receiver and embedded interface from a SECOND *types.Named node created by types.NewNamed on the same *TypeName, and Map pools hold a named atom, its second node and such a twin of a composite key). "+
 		"Direct oracle on ALL ordered pairs of the universe. Correspondence: blocks of 26 terms (a window of sibling terms, twins, random terms) -> 676 model pairs each, and Map histories over pools of 12 keys with forced hash collisions. "+
 		"A counted case is one ordered pair of a block (non-trivial: both terms have the same outermost constructor other than Basic/Named) or one Map history (non-trivial: at least one successful Delete and one overwriting Set)")
 	wd := vh.NewWatchdog(rep, 180*time.Second)
@@ -928,7 +954,7 @@ func main() {
 	u := make([]term, 2*n)
 	for i, s := range specs {
 		u[i] = term{s: s, t: build(s), twin: n + i}
-		u[n+i] = term{s: s, t: build(s), twin: i}
+		u[n+i] = term{s: s, t: buildGen(s, 1), twin: i} // the twin also uses the second Named node of every type name
 	}
 	for i := range u {
 		wd.Beat("hash " + u[i].s.String())
@@ -1028,11 +1054,17 @@ func main() {
 		}
 		mk(keys[rng.Intn(len(keys))].s) // twins (pointer-disjoint, identical)
 		mk(keys[rng.Intn(len(keys))].s)
-		for len(keys) < 12 {
+		for len(keys) < 9 {
 			i := rng.Intn(len(u))
 			if modelable(i) && u[i].s.K != "basic" && u[i].s.K != "named" && u[i].s.K != "alias" && u[i].s.K != "nil" {
 				mk(u[i].s)
 			}
+		}
+		// twins over the second Named node of every type name: a named atom and a random composite already in the pool
+		nmk := atoms()[10+rng.Intn(16)]
+		mk(nmk)
+		for _, s := range []*spec{nmk, keys[7+rng.Intn(2)].s} {
+			keys = append(keys, term{s: s, t: buildGen(s, 1)})
 		}
 		var kc []string
 		okc := true
